@@ -122,14 +122,14 @@ class FeatureProfiles:
 class FeatureInfo:
     feature_id_counter = SimpleIDDistributor()
     def __init__(self, chr_id, start, end, strand, type, gene_ids):
-        self.id = FeatureInfo.feature_id_counter.increment()
         self.chr_id = chr_id
         self.start = start
         self.end = end
         self.strand = strand
         self.type = type
         self.gene_ids = gene_ids
-        #self.id = "%s_%d_%d_%s" % (self.chr_id, self.start, self.end, self.strand)
+        # the id must be the same whenever the gene is loaded (a gene can be processed in several regions)
+        self.id = "%s_%d_%d_%s" % (self.chr_id, self.start, self.end, self.strand)
 
     @staticmethod
     def header():
